@@ -45,6 +45,51 @@ func init() {
 	})
 }
 
+// Op "batchfate": a server that dies — with an error or with a clean exit status 0 — after k of n
+// requests while the cases it never served are marked known-failing: those cases could not be run,
+// so the run must fail whatever the marking (C04: "a case that could not be set up or run … always
+// counts against success even if marked known-failing or flaky").
+type c04FateIn struct {
+	N       int  `json:"n"`
+	Dies    int  `json:"dies"`
+	ExitNil bool `json:"exitNil"`
+	Async   bool `json:"async"`
+}
+
+func init() {
+	gen.RegisterOp("c04", "batchfate", func(_ *gen.Ctx, raw json.RawMessage) any {
+		in := gen.Into[c04FateIn](raw)
+		names := make([]string, in.N)
+		cases := make([]cc.VerifC11Case, in.N)
+		var kf []string
+		for i := range names {
+			names[i] = fmt.Sprintf("Suite/fate/case%d", i)
+			cases[i] = cc.VerifC11Case{K: "mismatch", Async: in.Async}
+			if i < in.Dies {
+				cases[i] = cc.VerifC11Case{K: "pass", Async: in.Async}
+			} else {
+				kf = append(kf, names[i])
+			}
+		}
+		spec := cc.VerifC11Spec{Names: names, Cases: cases, Start: "ok", Write: "ok", Close: "ok", Resp: "ok", Dies: in.Dies, ExitNil: in.ExitNil,
+			RespLen: cc.VerifC11RespLen(), KnownFailing: kf}
+		ok, lines, hang := cc.VerifC04BatchReport(spec)
+		return map[string]any{"ok": ok, "lines": lines, "hang": hang}
+	})
+}
+
+func c04Fate(c *gen.Ctx) {
+	var ins []any
+	for n := 1; n <= 3; n++ {
+		for dies := 0; dies < n; dies++ {
+			for _, nilExit := range []bool{false, true} {
+				ins = append(ins, c04FateIn{N: n, Dies: dies, ExitNil: nilExit, Async: c.R.Bool()})
+			}
+		}
+	}
+	c.DoParallel("batchfate", ins, 4)
+}
+
 type c04FbIn struct {
 	N      int      `json:"n"`
 	Target int      `json:"target"`
@@ -55,6 +100,7 @@ type c04FbIn struct {
 }
 
 func c04Feedback(c *gen.Ctx) {
+	c04Fate(c)
 	r := c.R
 	msgs := []string{
 		"expected compression gzip; instead got identity",
